@@ -82,6 +82,7 @@ fn main() {
                     base_calls: base,
                     readat: if family == "hist" { 12 } else { 0 },
                     reload_before_readat: false,
+                    rollback_pct: 0,
                     steps: 10 + srng.below(10),
                     max_reps: 3,
                     max_changes: 12,
@@ -129,6 +130,7 @@ fn main() {
                     base_calls: base,
                     readat: if family == "hist" { 12 } else { 0 },
                     reload_before_readat: false,
+                    rollback_pct: 0,
                     steps: 8 + srng.below(8),
                     max_reps: 3,
                     max_changes: 12,
@@ -139,7 +141,7 @@ fn main() {
                 };
                 scen::graph_scenario(i, &mut srng, &o, family)
             }
-            "doc" | "doctext" | "docinv" | "histdoc" | "reload" => {
+            "doc" | "doctext" | "docinv" | "histdoc" | "reload" | "rollback" | "iso" => {
                 let text = family == "doctext";
                 let mut prof = Profile::all();
                 if family == "docinv" {
@@ -158,11 +160,12 @@ fn main() {
                     automerge::TextEncoding::UnicodeCodePoint
                 };
                 let o = scen::GraphOpts {
-                    weights: if family == "reload" { scen::W_RELOAD } else { scen::W_DOC },
+                    weights: if family == "reload" { scen::W_RELOAD } else if family == "iso" { scen::W_ISO } else { scen::W_DOC },
                     twin_start: false,
                     base_calls: vec![],
                     readat: if family == "histdoc" { 10 } else if family == "reload" { 6 } else { 0 },
                     reload_before_readat: family == "reload",
+                    rollback_pct: if family == "rollback" { 45 } else { 0 },
                     steps: 8 + srng.below(10),
                     max_reps: 3,
                     max_changes: 10,
@@ -181,6 +184,7 @@ fn main() {
                     base_calls: vec![],
                     readat: 0,
                     reload_before_readat: false,
+                    rollback_pct: 0,
                     steps: 10 + srng.below(14),
                     max_reps: 4,
                     max_changes: 14,
@@ -226,6 +230,7 @@ fn dag_main(args: &[String]) {
                     base_calls: vec![],
                     readat: 0,
                     reload_before_readat: false,
+            rollback_pct: 0,
             steps: 8 + srng.below(10),
             max_reps: 3,
             max_changes: maxc,
